@@ -160,11 +160,19 @@ impl ValueMetadata {
         }
     }
     
+    /// Deadline for a time-to-live starting now. A time-to-live too large for the
+    /// clock saturates to a deadline centuries away instead of overflowing.
+    pub fn deadline_after(expires_in: Duration) -> Instant {
+        let now = Instant::now();
+        now.checked_add(expires_in)
+            .unwrap_or_else(|| now + Duration::from_secs(1000 * 365 * 24 * 3600))
+    }
+    
     /// Create metadata with expiration time
     pub fn with_expiration(expires_in: Duration) -> Self {
         let now = Instant::now();
         ValueMetadata {
-            expires_at: Some(now + expires_in),
+            expires_at: Some(Self::deadline_after(expires_in)),
             created_at: now,
             last_accessed: now,
             encoding: StringEncoding::Raw,
@@ -185,7 +193,7 @@ impl ValueMetadata {
     
     /// Set expiration time
     pub fn set_expiration(&mut self, expires_in: Duration) {
-        self.expires_at = Some(Instant::now() + expires_in);
+        self.expires_at = Some(Self::deadline_after(expires_in));
     }
     
     /// Clear expiration
